@@ -1350,3 +1350,33 @@ Print Assumptions C08_std_contain_file_drive_agree.
 Example C08_std_contain_file_drive_agree_inhabited :
   std_fs_drive_agree_case (B "file:///tmp/d?q") [(B "C|/y", B "file:///C:/y"); (B "d|", B "file:///d:"); (B " C|\z?k#g", B "file:///C:/z?k#g")] = true.
 Proof. exact std_contain_file_drive_agree_inhabited. Qed.
+
+From RU Require Import Proofs.C01_EqFileBase2 Proofs.C01_EqFileRel2 Proofs.C08_StdFileClasses.
+(* 11.13 ALL of C01's classes for a file base record at once (in_class_file_base_any = rel_path, rel_one, rel_one_carry,
+   rel_drive, rel2, same_path, same_one, same_one_carry, same_drive): for a related file base pair with spec_base_ok and a
+   reference in any of the classes that meets the Standard-side premise, the Standard succeeds keeping the front and the
+   crate's join answers Overflow or a related record, a full_base pair again, with the base's front API strings.  The
+   premise leaves the four scheme-less classes rel_path / rel_one / rel_one_carry / rel_drive (rel2 has two leading
+   slashes, the same_* classes a scheme: see 11.14 for those), so no host hypothesis is needed *)
+Theorem C08_std_contain_file_classes_agree : forall dbg hp hpo hd shp shs, shs SEmpty = [] -> forall b sb input,
+  usv_list input -> related dbg shs b sb -> spec_base_ok sb = true ->
+  in_class_file_base_any sb input = true -> std_contain_pre sb (spec_clean input) = true ->
+  exists su, spec_basic_url_parse shp input (Some sb) = BDone su /\ spec_same_front sb su /\ spec_base_ok su = true
+    /\ ((join dbg hp hpo hd b input = PErr Overflow /\ U32_MAX_P < nlen (get_href shs su))
+        \/ exists u', join dbg hp hpo hd b input = POk u' /\ related dbg shs u' su /\ full_base dbg shs u' su
+                      /\ option_map api_front (api_of_model dbg u') = option_map api_front (api_of_model dbg b)).
+Proof. exact std_contain_file_classes_agree. Qed.
+Print Assumptions C08_std_contain_file_classes_agree.
+(* non-vacuity: one line per class (both parsers on base and reference; flag = the reference meets the premise of 11.11;
+   both sides succeed with the serialization shown; with the flag set the host text is the base's) *)
+Example C08_std_contain_file_classes_agree_inhabited :
+  std_fs_classes_case in_class_file_rel_path (B "file://h.x/tmp/d?q") [(B "e/f", true, B "file://h.x/tmp/e/f"); (B "../g?k#z", true, B "file://h.x/g?k#z")] = true
+  /\ std_fs_classes_case in_class_file_rel_one (B "file://h.x/tmp/d?q") [(B "/p", true, B "file://h.x/p"); (B "\p", true, B "file://h.x/p")] = true
+  /\ std_fs_classes_case in_class_file_rel_one_carry (B "file:///C:/a/b") [(B "/p", true, B "file:///C:/p")] = true
+  /\ std_fs_classes_case in_class_file_rel_drive (B "file:///tmp/d?q") [(B "C|/y", true, B "file:///C:/y")] = true
+  /\ std_fs_classes_case in_class_file_rel2 (B "file://h.x/tmp/d?q") [(B "//g.y/z", false, B "file://g.y/z")] = true
+  /\ std_fs_classes_case in_class_file_same_path (B "file://h.x/tmp/d?q") [(B "file:e/f", false, B "file://h.x/tmp/e/f")] = true
+  /\ std_fs_classes_case in_class_file_same_one (B "file://h.x/tmp/d?q") [(B "file:/p", false, B "file://h.x/p")] = true
+  /\ std_fs_classes_case in_class_file_same_one_carry (B "file:///C:/a/b") [(B "file:/p", false, B "file:///C:/p")] = true
+  /\ std_fs_classes_case in_class_file_same_drive (B "file:///tmp/d?q") [(B "file:C|/y", false, B "file:///C:/y")] = true.
+Proof. exact std_contain_file_classes_agree_inhabited. Qed.
